@@ -186,6 +186,11 @@ func parseFlowDesc(flowDesc, ueIP string) (*ipFilterRule, error) {
 		}
 	}
 
+	if ipf.src.IPNet == nil || ipf.dst.IPNet == nil {
+		// a flow description needs both a "from" and a "to" endpoint
+		return nil, errBadFilterDesc
+	}
+
 	parseLog = parseLog.With("ip-filter", ipf)
 	parseLog.Debugln("flow description parsed successfully")
 
